@@ -2,6 +2,7 @@ package gosym
 
 import (
 	"fmt"
+	"regexp"
 	"go/types"
 	"strings"
 
@@ -101,7 +102,7 @@ func (e *Engine) fmtArg(fr *frame, out *fmtOut, spec string, verb byte, arg V) {
 		return
 	}
 	if verb == 'T' {
-		out.str(types.TypeString(it.T, nil))
+		out.str(goTypeString(it.T))
 		return
 	}
 	// error / Stringer take precedence for %v %s %q %w
@@ -435,3 +436,18 @@ func (e *Engine) newErrorString(msg V) V {
 }
 
 var _ *ssa.Function
+
+var aliasRe = regexp.MustCompile(`\b(byte|rune|any)\b`)
+
+// goTypeString renders a type the way %T does (aliases resolved).
+func goTypeString(t types.Type) string {
+	return aliasRe.ReplaceAllStringFunc(types.TypeString(t, nil), func(m string) string {
+		switch m {
+		case "byte":
+			return "uint8"
+		case "rune":
+			return "int32"
+		}
+		return "interface {}"
+	})
+}
